@@ -1004,14 +1004,15 @@ func (interp *Interpreter) cfg(root *node, sc *scope, importPath, pkgName string
 			case aEqual, aNotEqual:
 				n.typ = sc.getType("bool")
 				if c0.sym == nilSym || c1.sym == nilSym {
+					// The operand compared to nil is the other one.
+					operand := 1
+					if c1.sym == nilSym {
+						operand = 0
+					}
 					if n.action == aEqual {
-						if c1.sym == nilSym {
-							n.gen = isNilChild(0)
-						} else {
-							n.gen = isNilChild(1)
-						}
+						n.gen = isNilChild(operand)
 					} else {
-						n.gen = isNotNil
+						n.gen = isNotNilChild(operand)
 					}
 				}
 			case aGreater, aGreaterEqual, aLower, aLowerEqual:
